@@ -204,7 +204,7 @@ fn report_known_findings(engine: &str, property: &str, known: &known::KnownFindi
         };
         let doc: Value = serde_json::from_str(&text).expect("known finding replay JSON");
         if let (Some((class, _)), _) = replay_doc(&doc)
-            && class == f.class
+            && f.class.split('|').any(|c| c == class)
         {
             println!("KNOWN-FINDING: property={} {} [{}; replay {}]", f.property, f.what, f.id, path);
         }
@@ -443,7 +443,10 @@ fn main() {
             };
             sched::install_global_hook();
             let (regress_n, regress_v) = run_regressions("seqsim", "C19", &args.regress_dir);
-            let mut res = campaign::run_campaign(&cfg, |_t| Box::new(locksim::SeqWorker) as Box<dyn Worker>);
+            report_known_findings("seqsim", "C19", &known, &args.known);
+            let mut res = campaign::run_campaign(&cfg, |_t| {
+                Box::new(locksim::SeqWorker { known: known.clone() }) as Box<dyn Worker>
+            });
             res.violations.extend(regress_v);
             let _ = regress_n;
             let ev = campaign::evidence_part(
